@@ -59,6 +59,8 @@ def _par(R, name):
         par.update(ncross=R.randint(1, 3), nmating=R.randint(1, 2), nprogeny=R.randint(1, 2), nself=R.choice([0, 0, 1]))
     if name in HEAVY:
         par.update(ngen=R.randint(1, 3), pop=R.choice([4, 6, 8]))
+    if name == "embv":
+        par["per_taxon"] = R.random() < 0.5
     if name.startswith("legacy."):
         par["wt"] = R.choice([1.0, -1.0])
     if name == "prng.spawn":
